@@ -22,8 +22,10 @@ def px(e, o="self", loops=None):
     if t == "not":
         return "(~%s)" % px(e["e"], o)
     if t == "in":
+        def it_(x):
+            return px(x, o) if isinstance(x, dict) else str(x)
         return "%s.inside(vsc.rangelist(%s))" % (px(e["e"], o), ", ".join(
-            ("(%s, %s)" % (x[0], x[1])) if isinstance(x, list) else str(x) for x in e["rl"]))
+            ("(%s, %s)" % (it_(x[0]), it_(x[1]))) if isinstance(x, list) else it_(x) for x in e["rl"]))
     if t == "inrl":
         return "%s.inside(%s.%s)" % (px(e["e"], o), o, e["name"])
     if t == "inlist":
